@@ -148,11 +148,12 @@ def run(ctx: Ctx):
         sel = []
         for i, e in enumerate(cat):
             per[e.cls] = per.get(e.cls, 0) + 1
-            if per[e.cls] <= 8:
+            if per[e.cls] <= 10:
                 sel.append((i, e))
     else:
         sel = list(enumerate(cat))
     items = []
+    nview = {}
     for i, e in sel:
         key = {"catalogue_seed": seed, "level": level, "index": i, **e.key()}
         try:
@@ -161,7 +162,10 @@ def run(ctx: Ctx):
             ctx.count("construct-fails", key)
             ctx.notes.append(f"construction failed (reported by C04/C12): {e.cls} {type(ex).__name__}")
             continue
-        mats = relations(A)
+        # quick tier: the derived views (H, T, conj, their adjoints, gram_op) of the first
+        # configurations of each class only; adj for every selected configuration
+        nview[e.cls] = nview.get(e.cls, 0) + 1
+        mats = relations(A, want_views=(not ctx.quick) or nview[e.cls] <= 4)
         items.append((key, A, mats, tol_for(e, A)))
         ctx.count(e.cls, key)
     n1, _ = check_entries(ctx, items, lambda k: k["class"], "C01_cat")
